@@ -272,6 +272,28 @@ Theorem seed_walk_outside_coverage_kept_partial :
     In e (cleanup_task b q msize t (Seed.procs (Seed.geo_walk g msx msy cov 0 levels root old)) c).
 Proof. exact seed_walk_outside_coverage_kept_l. Qed.
 
+(* The converse through C11's descent (walk_complete_nested): an expired (or remove_all) tile of a selected level,
+   stored where remove_tile without dimensions finds it, is removed when the processed meta tiles are those the
+   modelled TileWalker descent hands over (from the start, no saved progress) - provided its grid tile contains a
+   point (px, py) that at every level k <= l lies in a tile of the grid whose meta tile the coverage does not classify
+   as NONE and that lies 1/10 pixel of level 0 inside the start rectangle; pyramid with resolutions that are integer
+   multiples of the next level's; the tile manager's meta size is that of the modelled meta grid.
+   _partial: the chain premise over the coarser levels is C11's (a meta tile that intersects the coverage only in a
+   sliver no ancestor reports is not covered), and resumed walks (old <> None) are not covered. *)
+Theorem seed_walk_inside_coverage_removed_partial :
+  forall b q msize t g msx msy cov skipk levels root c e dim l x y px py,
+    strategy b t = SWalk -> e_place e = PTile dim l x y -> dim_addressed b dim = true ->
+    t_all t || is_stale b q (t_T t) e = true ->
+    Seed_proofs.geo_wf g msx msy -> Seed_proofs.levels_wf g levels -> In l levels ->
+    msize l = Seed.meta_size g msx msy l -> Grid.tile g px py l = (x, y) ->
+    (forall k, 0 <= k <= l ->
+       Grid.valid_level g k = true /\ Seed_proofs.point_in_grid g px py k /\
+       cov (Seed.meta_bbox g msx msy (Seed_proofs.point_meta g msx msy px py k)) <> 0) ->
+    Seed_proofs.inset root (Grid.res_at g 0 / 10) px py ->
+    (forall k, 0 <= k < l -> exists f, 0 < f /\ Grid.res_at g k = f * Grid.res_at g (k + 1)) ->
+    ~ In e (cleanup_task b q msize t (Seed.procs (Seed.geo_walk g msx msy cov skipk levels root None)) c).
+Proof. exact seed_walk_inside_coverage_removed_l. Qed.
+
 (* ---- refuted: the side condition dim_visible is necessary (known finding F15, reproduced on the implementation) *)
 
 (* F15: directory strategy skips dimension directories. *)
